@@ -63,8 +63,28 @@ def only_high_bytes_dropped(prior, got):
     return True
 
 
-COPYING = ("unmarshal", "unmarshal_t", "unmarshal_std", "get", "copystring", "copystring_t",
-           "decoder_copystring", "decoder_copystring_t")
+OLD_ALIAS = {
+    "unmarshal": "unmarshal.def.iface", "unmarshal_t": "unmarshal.def.typed", "unmarshal_std": "unmarshal.std.iface",
+    "copystring": "unmarshalstring.cs.iface", "copystring_t": "unmarshalstring.cs.typed",
+    "decoder_copystring": "decoder.cs.iface", "decoder_copystring_t": "decoder.cs.typed",
+    "unmarshalstring": "unmarshalstring.def.iface", "unmarshalstring_t": "unmarshalstring.def.typed",
+    "get": "get.def.node", "getfromstring": "getfromstring.def.node",
+}
+
+
+def alias_api(name):
+    f = OLD_ALIAS.get(name, name).split(".")
+    return f if len(f) == 3 else [name, "", ""]
+
+
+def must_copy(name):
+    """the property lists exactly Unmarshal([]byte), Get([]byte) and decoding with CopyString"""
+    entry, cfg, _ = alias_api(name)
+    if entry in ("unmarshal", "get", "getcopy"):
+        return True
+    if entry in ("unmarshalstring", "decoder"):
+        return cfg in ("std", "cs", "csnum")
+    return False
 
 
 class C06(Spec):
@@ -89,10 +109,11 @@ class C06(Spec):
         vm = {"default": {}, "vm": {"SONIC_ENCODER_USE_VM": "1"}}
         return [
             Stream("hist", "c06.hist", 160 if q else 4000, envs=vm, timeout=0.5),
-            Stream("encinto", "c06.encinto", 1500 if q else 30000,
+            Stream("encgrid", "c06.encgrid", 1, envs=vm, timeout=0.1),
+            Stream("encinto", "c06.encinto", 900 if q else 30000,
                    envs={"default": {}, "vm": {"SONIC_ENCODER_USE_VM": "1"}, "noavx2": {"SONIC_MODE": "noavx2"}}, timeout=0.1),
             Stream("htmlesc", "c06.htmlesc", 400 if q else 30000, envs={"default": {}, "noavx2": {"SONIC_MODE": "noavx2"}}),
-            Stream("alias", "c06.alias", 900 if q else 60000,
+            Stream("alias", "c06.alias", 1500 if q else 60000,
                    envs={"default": {}, "optdec": {"SONIC_USE_OPTDEC": "1"},
                          "fastmap": {"SONIC_USE_OPTDEC": "1", "SONIC_USE_FASTMAP": "1"}}),
         ]
@@ -134,6 +155,11 @@ class C06(Spec):
             elif op == "encinto":
                 if s.get("pre") == "0":
                     out.append(("wrote-outside-spare-capacity", "%s: bytes before the spare part of the caller's array changed" % env))
+                if s.get("over") == "1":
+                    out.append(("wrote-outside-spare-capacity", "%s: bytes behind the capacity (%s) of the caller's slice changed" % (env, case[1])))
+                    continue
+                if s.get("places") == "0":
+                    out.append(("output-depends-on-buffer", "%s: heap and page-edge placement of the same slice gave different results" % env))
                 ref = s.get("ref")
                 if res.startswith("err") or ref == "err":
                     if res.startswith("err") != (ref == "err"):
@@ -156,7 +182,7 @@ class C06(Spec):
                 if res != s.get("ref"):
                     out.append(("output-depends-on-buffer", "%s: sonic=%s std=%s" % (env, res[:80], (s.get("ref") or "")[:80])))
             elif op == "alias":
-                if case[1] in COPYING and s.get("same") == "0":
+                if must_copy(case[1]) and s.get("same") == "0":
                     out.append(("decoded-value-aliases-input", "%s: api=%s fields=%s" % (env, case[1], s.get("diff"))))
         return out
 
@@ -178,13 +204,11 @@ class C06(Spec):
                     return True
             elif op == "encinto":
                 ref = s.get("ref")
+                if ref == "-" or s.get("over") == "1" or s.get("sonic") in ("CRASH", "PANIC", "HANG"):
+                    continue   # no reference was computed: the run stopped at the overrun
                 if not ref or ref == "err" or mm.startswith("err"):
                     if ref and (ref == "err") != mm.startswith("err"):
                         return True
-                    continue
-                # the reference is "prefix ++ plain Marshal"; under EscapeHTML the model (like the code) re-escapes
-                # the prefix, so the two agree only for prefixes the escape leaves alone
-                if case[3] == "1" and not html_clean(_hx(case[2])):
                     continue
                 if mm != ref:
                     return True
@@ -193,7 +217,7 @@ class C06(Spec):
                 if ref and mm != ref:
                     return True
             elif op == "alias":
-                if (case[1] in COPYING) != (mm == "noalias"):
+                if must_copy(case[1]) != (mm == "noalias"):
                     return True
         return False
 
@@ -204,7 +228,7 @@ class C06(Spec):
             return s.get("handed", "0") != "0" or any(c.startswith("E|") and "|a" in c for c in case[4:]) or \
                 any(c.startswith("X|") or c == "C" for c in case[4:])
         if op == "encinto":
-            return s.get("moved") == "1" or case[2] != "-"
+            return s.get("moved") == "1" or case[2] != "-" or case[4][:1] in "jqkFG"
         if op == "htmlesc":
             return not html_clean(_hx(case[3]))
         if op == "alias":
@@ -255,23 +279,46 @@ class C06(Spec):
                 return False
             return True
 
-        def optdec_number_ignores_copystring(d, params):
+        def aliasing_envs(d):
+            """(entry, cfg, dest, {env: set of labels that changed}) of an aliasing discrepancy through a string
+            entry point with CopyString; None when it is anything else"""
             c = d["case"]
             if d["kind"] != "decoded-value-aliases-input" or c[0] != "alias":
-                return False
-            if c[1] not in ("copystring_t", "decoder_copystring_t"):
-                return False
-            hit = False
+                return None
+            entry, cfg, dest = alias_api(c[1])
+            if entry not in ("unmarshalstring", "decoder") or cfg not in ("std", "cs", "csnum"):
+                return None   # Unmarshal([]byte) / Get([]byte) aliasing is never a listed finding
+            envs = {}
             for env, s in d["sonic"].items():
                 if s.get("same") == "0":
-                    # only the alternative decoder, and only the json.Number field
-                    if env not in ("optdec", "fastmap") or s.get("diff") != "n":
-                        return False
-                    hit = True
-            return hit
+                    envs[env] = set(x for x in (s.get("diff") or "").split(",") if x)
+            return (entry, cfg, dest, envs) if envs else None
+
+        def optdec_number_ignores_copystring(d, params):
+            a = aliasing_envs(d)
+            if not a or a[2] != "typed":
+                return False
+            # only the alternative decoder, and only the json.Number field
+            return all(env in ("optdec", "fastmap") and labs == {"n"} for env, labs in a[3].items())
+
+        def copystring_skips_number_in_interface(d, params):
+            a = aliasing_envs(d)
+            if not a or a[1] != "csnum" or a[2] not in ("iface", "mapiface", "sliface", "wrap"):
+                return False
+            # only json.Number values inside interface{} (UseNumber); strings and keys must have been copied
+            return all(labs == {"N"} for labs in a[3].values())
+
+        def copystring_skips_node_fields(d, params):
+            a = aliasing_envs(d)
+            if not a or a[2] != "nodes":
+                return False
+            # only the JIT decoder, and only the ast.Node / *ast.Node fields
+            return all(env == "default" and labs and labs <= {"nd", "pn"} for env, labs in a[3].items())
 
         return {"encinto_finish_rewrites_prefix": encinto_finish_rewrites_prefix,
-                "optdec_number_ignores_copystring": optdec_number_ignores_copystring}
+                "optdec_number_ignores_copystring": optdec_number_ignores_copystring,
+                "copystring_skips_number_in_interface": copystring_skips_number_in_interface,
+                "copystring_skips_node_fields": copystring_skips_node_fields}
 
 
 SPEC = C06()
